@@ -2,6 +2,8 @@ import Liquid.Render
 import Liquid.Sprint
 import Liquid.Call
 import Liquid.Filters.Num
+import Liquid.Filters.StrGlue
+import Liquid.Compare
 /-!
 # The standard configuration: concrete `Prims` / `OutPrims` assembled from the value layer
 -/
@@ -26,14 +28,14 @@ def stdChunks (v : GoVal) : Res Cause (List Bytes) := writeChunksL v.toLiquid
 
 def stdOut : OutPrims := { chunks := stdChunks }
 
-/-- placeholder until `Compare.lean` is merged -/
-def cmpStub (_ _ : GoVal) : Res Cause Bool := .unmodelled "comparison model not linked"
-
 /-- every modelled filter body; each `Filters/*.lean` file contributes its `impls` list here -/
-def stdFilterImpls : List (Bytes × FilterImpl) := Num.impls
+def stdFilterImpls : List (Bytes × FilterImpl) := Num.impls ++ StrGlue.impls
 
 def stdPrims : Prims :=
-  { equal := cmpStub, less := cmpStub, contains := cmpStub, equalFn := cmpStub,
+  { equal := fun a b => Cmp.opEq (Cmp.prep a) (Cmp.prep b),
+    less := fun a b => Cmp.opLt (Cmp.prep a) (Cmp.prep b),
+    contains := fun a b => Cmp.opContains (Cmp.prep a) (Cmp.prep b),
+    equalFn := fun a b => Cmp.equal (Cmp.prep a) (Cmp.prep b),
     applyFilter := fun name recv args => applyFilter (lookupImpl stdFilterImpls) name recv args,
     hasFilter := fun name => (lookupSig name).isSome }
 
